@@ -816,3 +816,25 @@ mod tests {
         dbg!((t::UnixEpochDay::MIN, t::UnixEpochDay::MAX));
     }
 }
+
+// Verification hooks (additive, compiled out unless `--cfg jiff_verif`).
+#[cfg(jiff_verif)]
+static VERIF_MONOTONIC_OFFSET_MS: core::sync::atomic::AtomicU64 =
+    core::sync::atomic::AtomicU64::new(0);
+
+#[cfg(jiff_verif)]
+pub(crate) fn verif_monotonic_offset() -> core::time::Duration {
+    core::time::Duration::from_millis(
+        VERIF_MONOTONIC_OFFSET_MS.load(core::sync::atomic::Ordering::SeqCst),
+    )
+}
+
+/// Advance the monotonic clock seen by Jiff's caches (verification only).
+#[cfg(jiff_verif)]
+#[doc(hidden)]
+pub fn __verif_advance_monotonic(by: core::time::Duration) {
+    VERIF_MONOTONIC_OFFSET_MS.fetch_add(
+        by.as_millis() as u64,
+        core::sync::atomic::Ordering::SeqCst,
+    );
+}
